@@ -82,12 +82,12 @@ PROPS = {
         assumptions=['soundness of the zero-knowledge proofs against non-degenerate cheating is computational: covered by generated inputs only', 'known finding: OTRv2 accepts degenerate group elements (test-pinned)']),
     'C13': dict(
         module='Props.C13', level='proof',
-        profiles=dict(quick=[('parse', 150, 1), ('life', 25, 1), ('keyfile', 150, 1), ('ake', 60, 1)], thorough=[('parse', 1500, 8), ('life', 300, 8), ('keyfile', 2000, 4), ('tags', 100, 2), ('frag', 40, 2), ('ake', 600, 4)]),
+        profiles=dict(quick=[('parse', 150, 1), ('life', 25, 1), ('keyfile', 150, 1), ('ake', 60, 1), ('smp', 40, 1)], thorough=[('parse', 1500, 8), ('life', 300, 8), ('keyfile', 2000, 4), ('tags', 100, 2), ('frag', 40, 2), ('ake', 600, 4)]),
         explanation='total model with explicit panic outcomes; theorems: complete list of panic sites reachable from a data message, no panic under the session invariants, allocation bound of ExtractMPIs (Props.C13); Go harness runs every public parser and Receive in every conversation state on structured/mutated/raw input under recover with time and allocation measurement, a usability probe afterwards, and fails or shortens the k-th randomness read for every k',
         assumptions=['the key-file reader is run in a worker process so that a stack overflow or hang is observed rather than fatal', 'Go runtime behaviour (stack, GC) is observed, not modelled']),
     'C08': dict(
         module='Props.C08', level='proof',
-        profiles=dict(quick=[('mem', 20, 1)], thorough=[('mem', 150, 8)]),
+        profiles=dict(quick=[('mem', 20, 1), ('parse', 20, 1)], thorough=[('mem', 150, 8), ('parse', 200, 2)]),
         explanation='model-level theorems (Props.C08: only two DH key slots plus the exchange in progress; exact reset of the AKE context on completion, of keys/SMP/AKE on End and peer disconnect); heap level: reflection scan of the object graph reachable from the real *Conversation after every API call for every secret drawn from Conversation.Rand and every text, with alias tracking to tell zeroed from dropped buffers',
         assumptions=['copies made and dropped inside a single call, registers, stack and GC relocation are not visible to the scan', 'known finding: SMP exponents dropped without zeroing (test-pinned)']),
     'C20': dict(
@@ -97,7 +97,7 @@ PROPS = {
         assumptions=['data races are detected dynamically by the Go race detector on the schedules that occur', 'each pair uses its own copy of the long-term key object']),
     'C04': dict(
         module='Props.C04', level='proof',
-        profiles=dict(quick=[('sched', 12, 1), ('schedx', 60, 1)], thorough=[('sched', 80, 8), ('schedx', 4000, 1), ('frag', 40, 2)]),
+        profiles=dict(quick=[('sched', 12, 1), ('schedx', 60, 1), ('frag', 2, 1)], thorough=[('sched', 80, 8), ('schedx', 4000, 1), ('frag', 40, 2)]),
         explanation='inductive invariant of the two-party system over ALL interleavings of sends and deliveries, any number in flight, any number of rotations (Props.C04: every delivery accepted, exactly once, in order, same keys on both sides, AES-CTR involution); tied to the code by whole-session differential runs; Go oracle: per-side expected-text queues over random long schedules (fragmentation, heartbeats, SMP, extra key, both versions) and exhaustive interleavings to a bounded depth',
         assumptions=['DH commutativity and pairwise distinct public keys (hypotheses of c04_key_agreement)', 'key ids < 2^32, counters < 2^64', 'texts without NUL (the guard of the property itself)']),
     'C10': dict(
